@@ -16,9 +16,10 @@ HARNESSES = [
   inst(2, 2, 2, ('quick', 'thorough')),
   inst(2, 2, 3, ('quick', 'thorough')),
   inst(2, 2, 2, ('quick', 'thorough'), hard=True),
-  inst(3, 2, 3, ('thorough',), timeout=3000),
-  inst(2, 4, 4, ('thorough',), timeout=3000),
-  inst(3, 2, 3, ('thorough',), hard=True, timeout=3000),
+  inst(3, 2, 2, ('thorough',), witness=False, timeout=1500),
+  inst(2, 3, 3, ('thorough',), witness=False, timeout=1500),
+  inst(1, 4, 3, ('thorough',), witness=False, timeout=1500),
+  inst(2, 2, 3, ('thorough',), hard=True, witness=False, timeout=1500),
 ]
 ASSUMPTIONS = ['sel mode: std::deque<WriteEntry> / unordered_map<Fd,deque> / unique_lock<mutex> / shared_ptr<Core> are ghost models at method boundaries (deque elements are exact-size heap blocks freed by pop_front, so a dangling `buffer` reference is a use-after-free)',
                'Resolver::operator() / Rejection::operator() are recording stubs (the promise core itself is C11)',
